@@ -5,7 +5,12 @@ import (
 	"math/rand"
 	"sort"
 
+	"os"
+	"time"
+
 	"github.com/markusressel/fan2go/internal/configuration"
+	"github.com/markusressel/fan2go/internal/control_loop"
+	"github.com/markusressel/fan2go/internal/controller"
 	"github.com/markusressel/fan2go/internal/fans"
 )
 
@@ -252,6 +257,64 @@ func c13OtherBackends(ctx *Ctx, c *c13Case, fan fans.Fan) {
 	ctx.AddSet("config_combination_x_attachments", fmt.Sprintf("%s|ns=%v", cfgClass, c.NeverStop))
 }
 
+// c13Tachless: "given no measurements it refuses instead of inventing limits" at the place where measurements come
+// from - the controller's initial analysis. A hwmon fan with a PWM output but no tachometer input cannot be measured:
+// after the analysis nothing may be stored as its RPM curve, the fan carries no curve points, and its limits are what
+// they were before (configured values, else the built-in defaults).
+func c13Tachless(ctx *Ctx, r *rand.Rand) {
+	installClock()
+	resetDriver()
+	controller.VerifTimescale = 50
+	configuration.CurrentConfig.FanResponseDelay = 0
+	v := newVFan(ctx, r.Intn(2) == 0, false)
+	defer func() {
+		delete(driver.Mem, v.PwmPath)
+		delete(driver.Mem, v.EnablePath)
+		_ = os.RemoveAll(v.Dir)
+	}()
+	curve := newScriptCurve()
+	cfg := v.hwmonConfig(uniqueId("c13tachless"), curve.Id)
+	cfg.NeverStop = r.Intn(2) == 0
+	m := identityMap()
+	cfg.PwmMap = &m // (a configured map: no sweep is needed to learn the PWM map)
+	desc := map[string]interface{}{"scenario": "initial analysis of a hwmon fan without tachometer input", "neverStop": cfg.NeverStop}
+	if r.Intn(2) == 0 {
+		cfg.MaxPwm = iptr(100 + r.Intn(156))
+		desc["cfgMax"] = *cfg.MaxPwm
+	}
+	fan, err := fans.NewFan(cfg)
+	if err != nil {
+		ctx.Inconclusive("tachless fan: " + err.Error())
+		return
+	}
+	pers := newMemPersistence()
+	ctrl := controller.NewFanController(pers, fan, control_loop.NewDirectControlLoop(nil), 5*time.Millisecond).(*controller.DefaultFanController)
+	before := [3]int{fan.GetMinPwm(), fan.GetStartPwm(), fan.GetMaxPwm()}
+	var ierr error
+	panicked, msg := Guard(func() { ierr = ctrl.RunInitializationSequence() })
+	ctx.Eval(1)
+	if panicked {
+		ctx.Violation("tachless:panic-in-initial-analysis", msg, desc)
+		return
+	}
+	after := [3]int{fan.GetMinPwm(), fan.GetStartPwm(), fan.GetMaxPwm()}
+	points := 0
+	if d := fan.GetFanRpmCurveData(); d != nil {
+		points = len(*d)
+	}
+	_, lerr := pers.LoadFanPwmData(fan)
+	switch {
+	case lerr == nil:
+		ctx.Violation("tachless:rpm-curve-stored-without-a-measurement", fmt.Sprintf("%s: the database holds an RPM curve for a fan that has no tachometer (analysis returned %v); limits %v -> %v", jsonStr(desc), ierr, before, after), desc)
+	case points > 0:
+		ctx.Violation("tachless:curve-points-without-a-measurement", fmt.Sprintf("%s: the fan carries %d curve points; limits %v -> %v", jsonStr(desc), points, before, after), desc)
+	case after != before:
+		ctx.Violation("tachless:limits-changed-without-a-measurement", fmt.Sprintf("%s: limits %v -> %v", jsonStr(desc), before, after), desc)
+	default:
+		ctx.Nontrivial(fmt.Sprintf("tachless|ns=%v|max=%v", cfg.NeverStop, cfg.MaxPwm != nil))
+	}
+}
+
 func init() {
 	register("C13", func(ctx *Ctx) {
 		r := ctx.Rng
@@ -328,6 +391,9 @@ func init() {
 			c13Run(ctx, c)
 			if i%1000 == 500 {
 				c13ConfigPath(ctx, i)
+			}
+			if i%4000 == 700 {
+				c13Tachless(ctx, r)
 			}
 		}
 	})
